@@ -109,14 +109,30 @@ def projects(draw: Any, with_star: bool = True, with_class_imports: bool = True)
             i = nxt()
             if kind == 'class':
                 d: Dict[str, Any] = {'k': 'class', 'name': 'C%d' % i, 'id': i, 'method': nxt(), 'nested': nxt() if draw(st.booleans()) else None, 'cimports': []}
-                if with_class_imports and earlier and draw(st.integers(0, 3)) == 0:
+                if with_class_imports and earlier and draw(st.integers(0, 2)) == 0:
                     tgt = draw(st.sampled_from(earlier))
                     j = nxt()
+                    r = relative(layout, m, tgt)
+                    use_rel = r is not None and draw(st.booleans())
                     if public.get(tgt) and draw(st.booleans()):
                         nm, kd = draw(st.sampled_from(public[tgt]))
-                        d['cimports'].append({'text': 'from %s import %s as ci%d' % (tgt, nm, j), 'name': 'ci%d' % j})
+                        if use_rel:
+                            d['cimports'].append({'text': 'from %s%s import %s as ci%d' % ('.' * r[0], r[1], nm, j), 'name': 'ci%d' % j})
+                        else:
+                            d['cimports'].append({'text': 'from %s import %s as ci%d' % (tgt, nm, j), 'name': 'ci%d' % j})
+                        if nm in own_defs.get(tgt, []):
+                            d['cmust'] = d.get('cmust', []) + ['ci%d' % j]
+                    elif use_rel and r[1]:
+                        level, rem = r
+                        if '.' in rem:
+                            par, leaf = rem.rsplit('.', 1)
+                            d['cimports'].append({'text': 'from %s%s import %s as cm%d' % ('.' * level, par, leaf, j), 'name': 'cm%d' % j})
+                        else:
+                            d['cimports'].append({'text': 'from %s import %s as cm%d' % ('.' * level, rem, j), 'name': 'cm%d' % j})
+                        d['cmust'] = d.get('cmust', []) + ['cm%d.%s' % (j, x) for x in own_defs.get(tgt, [])]
                     else:
                         d['cimports'].append({'text': 'import %s as cm%d' % (tgt, j), 'name': 'cm%d' % j})
+                        d['cmust'] = d.get('cmust', []) + ['cm%d.%s' % (j, x) for x in own_defs.get(tgt, [])]
                 body.append(d)
                 names_here.append((d['name'], 'class'))
             elif kind == 'func':
@@ -147,6 +163,9 @@ def projects(draw: Any, with_star: bool = True, with_class_imports: bool = True)
             counts[n] = counts.get(n, 0) + 1
         public[m] = [(n, k) for n, k in names_here if k != 'module' and counts[n] == 1]
         must[m] = [x for x in must.get(m, []) if counts.get(x.split('.')[0], 0) == 1]
+        for b in body:
+            if b['k'] == 'class' and b.get('cmust'):
+                must[m + '.' + b['name']] = b['cmust']
     return {'layout': layout, 'mods': mods, 'must': must}
 
 
